@@ -254,6 +254,9 @@ func (s *vfSM) rawClientOp(op *vfOp) {
 	case "set":
 		ok := s.c.SetWithTTL(op.Key, op.Tok, op.Cost, time.Duration(op.TTL))
 		op.Res = fmt.Sprint(ok)
+		if v, found := s.c.storedItems.Get(op.Key, 0); found && v == op.Tok {
+			op.Res += "+upd"
+		}
 	case "del":
 		s.c.Del(op.Key)
 	case "get":
@@ -405,25 +408,33 @@ func (s *vfSM) delAcct(key uint64) (int64, bool) {
 	return old, ok
 }
 
-// absorb processes the callback log generically (C04 bookkeeping) and returns the events.
+// absorb processes the callback log generically (C04 bookkeeping) and returns the events. Every event is
+// counted even after a violation was seen, so that later assertions do not read half-updated counters.
 func (s *vfSM) absorb() ([]vfCB, *vfViol) {
 	l := s.takeLog()
+	var first *vfViol
+	note := func(v *vfViol) {
+		if first == nil {
+			first = v
+		}
+	}
 	for i, e := range l {
 		if e.kind == vfCBProg || e.tok == 0 {
 			continue // zero value = "no value" (Del of an absent key, stale victim)
 		}
 		ti := s.toks[e.tok]
 		if ti == nil {
-			return l, vfV("C04", "callback-for-unknown-value", "callback %d for value %d which no Set supplied", e.kind, e.tok)
+			note(vfV("C04", "callback-for-unknown-value", "callback %d for value %d which no Set supplied", e.kind, e.tok))
+			continue
 		}
 		if ti.state == tDropped {
-			return l, vfV("C04", "callback-for-refused-set", "value %d: its Set returned false but callback kind %d fired", e.tok, e.kind)
+			note(vfV("C04", "callback-for-refused-set", "value %d: its Set returned false but callback kind %d fired", e.tok, e.kind))
 		}
 		switch e.kind {
 		case vfCBExit:
 			ti.exits++
 			if ti.exits > 1 {
-				return l, vfV("C04", "double-exit", "value %d (key %d) passed to OnExit %d times", e.tok, ti.key, ti.exits)
+				note(vfV("C04", "double-exit", "value %d (key %d) passed to OnExit %d times", e.tok, ti.key, ti.exits))
 			}
 		case vfCBEvict, vfCBReject:
 			if e.kind == vfCBEvict {
@@ -432,7 +443,7 @@ func (s *vfSM) absorb() ([]vfCB, *vfViol) {
 				ti.rejects++
 			}
 			if ti.evicts > 1 || ti.rejects > 1 {
-				return l, vfV("C04", "double-evict-or-reject", "value %d: OnEvict x%d OnReject x%d", e.tok, ti.evicts, ti.rejects)
+				note(vfV("C04", "double-evict-or-reject", "value %d: OnEvict x%d OnReject x%d", e.tok, ti.evicts, ti.rejects))
 			}
 			j := i + 1
 			if j < len(l) && l[j].kind == vfCBProg {
@@ -442,11 +453,11 @@ func (s *vfSM) absorb() ([]vfCB, *vfViol) {
 				}
 			}
 			if j >= len(l) || l[j].kind != vfCBExit || l[j].tok != e.tok {
-				return l, vfV("C04", "evict-reject-not-followed-by-exit", "OnEvict/OnReject of value %d is not followed by its OnExit", e.tok)
+				note(vfV("C04", "evict-reject-not-followed-by-exit", "OnEvict/OnReject of value %d is not followed by its OnExit", e.tok))
 			}
 		}
 	}
-	return l, nil
+	return l, first
 }
 
 // gone marks a token as no longer retrievable.
